@@ -489,3 +489,164 @@ def deterministic(name, o, f, agg=None):
     if fn.supports_agg:
         return fn(o, f, agg or "mean")
     return fn(o, f)
+
+
+# ------------------------------------------------------------------------------ probabilistic scores (C08)
+# inputs: o = list of event indicators (0/1), p = list of forecast probabilities of the event
+
+def _bins10(p):
+    """index of the 10 equal-width probability bins, top edge inclusive"""
+    edges = [i * 0.1 for i in range(11)]
+    for i in range(10):
+        hi = edges[i + 1]
+        if p >= edges[i] and (p < hi or (i == 9 and p <= 1.0 + 1e-12)):
+            return i
+    return None
+
+
+@_safe
+def brier(o, p):
+    return mean((b - a) ** 2 for a, b in zip(o, p))
+
+
+@_safe
+def brier_unc(o, p):
+    m = mean(o)
+    return mean((m - a) ** 2 for a in o)
+
+
+def _bin_stats(o, p):
+    groups = {}
+    for a, b in zip(o, p):
+        groups.setdefault(_bins10(b), []).append((a, b))
+    return groups
+
+
+@_safe
+def brier_rel(o, p):
+    n = float(len(o))
+    tot = 0.0
+    cnt = 0
+    for k, g in _bin_stats(o, p).items():
+        if k is None:
+            continue
+        ob = mean(a for a, _ in g)
+        tot += math.fsum((b - ob) ** 2 for _, b in g)
+        cnt += len(g)
+    return tot / cnt
+
+
+@_safe
+def brier_res(o, p):
+    m = mean(o)
+    tot = 0.0
+    cnt = 0
+    for k, g in _bin_stats(o, p).items():
+        if k is None:
+            continue
+        ob = mean(a for a, _ in g)
+        tot += len(g) * (ob - m) ** 2
+        cnt += len(g)
+    return tot / cnt
+
+
+@_safe
+def brier_ss(o, p):
+    u = brier_unc(o, p)
+    return (u - brier(o, p)) / u
+
+
+@_safe
+def brier_ss_rel(o, p):
+    return brier_rel(o, p) / brier_unc(o, p)
+
+
+@_safe
+def brier_ss_res(o, p):
+    return brier_res(o, p) / brier_unc(o, p)
+
+
+@_safe
+def ignorance(o, p):
+    return mean(-math.log(b, 2) if a else -math.log(1 - b, 2) for a, b in zip(o, p))
+
+
+@_safe
+def spherical(o, p):
+    return mean((b if a else (1 - b)) / math.sqrt(b * b + (1 - b) * (1 - b)) for a, b in zip(o, p))
+
+
+@_safe
+def marginal_ratio(o, p):
+    return mean(o) / mean(p)
+
+
+@_safe
+def pinball(obs, q, tau):
+    return mean((a - b) * (tau - (1.0 if a - b < 0 else 0.0)) for a, b in zip(obs, q))
+
+
+def norm_ppf(x):
+    from statistics import NormalDist
+    if x <= 0:
+        return float("-inf")
+    if x >= 1:
+        return float("inf")
+    return NormalDist().inv_cdf(x)
+
+
+@_safe
+def spread_skill_ratio(obs, fcst, qlo, qhi, lo, hi):
+    spread = mean(b - a for a, b in zip(qlo, qhi))
+    skill = math.sqrt(mean((a - b) ** 2 for a, b in zip(obs, fcst)))
+    num_std = 0.5 * (norm_ppf(hi) - norm_ppf(lo))
+    return spread / num_std / skill
+
+
+def pit_hist(pit, nb=10):
+    """relative frequencies in nb equal bins of [0,1], last bin closed"""
+    n = [0] * nb
+    for v in pit:
+        if v < 0 or v > 1:
+            continue
+        i = min(int(v * nb + 1e-12), nb - 1) if v < 1 else nb - 1
+        # guard against float edges: use the same float edges as i/nb
+        edges = [k * (1.0 / nb) for k in range(nb + 1)]
+        for k in range(nb):
+            if (v >= edges[k] and v < edges[k + 1]) or (k == nb - 1 and v == edges[nb]):
+                i = k
+                break
+        n[i] += 1
+    tot = float(sum(n))
+    if tot == 0:
+        return [NAN] * nb
+    return [x / tot for x in n]
+
+
+@_safe
+def pit_dev(pit, nb=10):
+    if not pit:
+        return NAN
+    f = pit_hist(pit, nb)
+    D = math.sqrt(1.0 / nb * math.fsum((x - 1.0 / nb) ** 2 for x in f))
+    D0 = math.sqrt((1.0 - 1.0 / nb) / (len(pit) * nb))
+    return D / D0
+
+
+@_safe
+def pit_slope(pit, nb=10):
+    if not pit:
+        return NAN
+    f = pit_hist(pit, nb)
+    dx = 1.0 / nb
+    return mean((f[i + 1] - f[i]) / dx for i in range(nb - 1))
+
+
+@_safe
+def pit_shape(pit, nb=10):
+    if not pit:
+        return NAN
+    f = pit_hist(pit, nb)
+    dx = 1.0 / nb
+    d = [(f[i + 1] - f[i]) / dx for i in range(nb - 1)]
+    return mean((d[i + 1] - d[i]) / dx for i in range(nb - 2))
